@@ -381,35 +381,45 @@ structure InsGroup where
   highB : Nat
   deriving Repr
 
+/-- One range of the first loop of `diffRules` (`delIdx` is the index after the rules deleted
+last). -/
+def phase1Step (diff : Differ) (fuel : Nat) (aRules bRules : List Rule)
+    (acc : St × Nat × List InsGroup) (r : Range) : St × Nat × List InsGroup :=
+  let (st, delIdx, inserts) := acc
+  match r.kind with
+  | .del =>
+    (st.emitAll ((aRules.extract r.lowA r.highA).map (fun ru => Cmd.delRule ru.name)), r.highA, inserts)
+  | .ins =>
+    let aPos := max r.lowA delIdx
+    let anchor := (aRules[aPos]?).map (·.name)
+    (st, delIdx, inserts ++ [⟨anchor, r.lowB, r.highB⟩])
+  | .eq =>
+    let st := (List.range (r.highA - r.lowA)).foldl (fun st k =>
+      equalize diff fuel st (aRules.getD (r.lowA + k) default) (bRules.getD (r.lowB + k) default)) st
+    (st, delIdx, inserts)
+
 /-- First loop of `diffRules`: deletes and equalisations in range order; inserts are only
-collected (`delIdx` is the index after the rules deleted last). -/
+collected. -/
 def rulePhase1 (diff : Differ) (fuel : Nat) (_a _b : Vsys) (aRules bRules : List Rule)
     (rs : List Range) (st : St) : St × Nat × List InsGroup :=
-  rs.foldl (fun (acc : St × Nat × List InsGroup) r =>
-    let (st, delIdx, inserts) := acc
-    match r.kind with
-    | .del =>
-      (st.emitAll ((aRules.extract r.lowA r.highA).map (fun ru => Cmd.delRule ru.name)), r.highA, inserts)
-    | .ins =>
-      let aPos := max r.lowA delIdx
-      let anchor := (aRules[aPos]?).map (·.name)
-      (st, delIdx, inserts ++ [⟨anchor, r.lowB, r.highB⟩])
-    | .eq =>
-      let st := (List.range (r.highA - r.lowA)).foldl (fun st k =>
-        equalize diff fuel st (aRules.getD (r.lowA + k) default) (bRules.getD (r.lowB + k) default)) st
-      (st, delIdx, inserts)) (st, 0, [])
+  rs.foldl (phase1Step diff fuel aRules bRules) (st, 0, [])
+
+/-- One inserted rule: `set`, then `move` unless it belongs at the end. -/
+def insertRule (anchor : Option String) (st : St) (ru : Rule) : St :=
+  let (src, st) := adaptGroups st ru.src
+  let (dst, st) := adaptGroups st ru.dst
+  let st := st.emit (.setRule { ru with src := src, dst := dst })
+  match anchor with
+  | some dst => st.emit (.move ru.name dst)
+  | none => st
+
+def insertGroup (bRules : List Rule) (st : St) (ins : InsGroup) : St :=
+  (bRules.extract ins.lowB ins.highB).foldl (insertRule ins.anchor) st
 
 /-- Second loop of `diffRules`: every collected rule is appended (`set`) and, unless it belongs
 at the end, moved before its anchor. -/
 def rulePhase2 (st : St) (bRules : List Rule) (inserts : List InsGroup) : St :=
-  inserts.foldl (fun st ins =>
-    (bRules.extract ins.lowB ins.highB).foldl (fun st ru =>
-      let (src, st) := adaptGroups st ru.src
-      let (dst, st) := adaptGroups st ru.dst
-      let st := st.emit (.setRule { ru with src := src, dst := dst })
-      match ins.anchor with
-      | some dst => st.emit (.move ru.name dst)
-      | none => st) st) st
+  inserts.foldl (insertGroup bRules) st
 
 def diffRules (diff : Differ) (fuel : Nat) (st : St) (a b : Vsys) (aRules bRules : List Rule) : St :=
   let rs := diff aRules.length bRules.length
